@@ -944,8 +944,8 @@ def _one_spec(case, got):
     pset, ok2 = _codon_set(case, 'stop')
     custom = 'start' in case or 'stop' in case
     mp = _mapped(s, base)
-    if not (ok1 and ok2):
-        return None                              # overlapping custom words: invariants only (see _codon_set)
+    if not (ok1 and ok2) or (custom and 'U' in s):
+        return None                              # overlapping custom words, custom words on RNA: invariants only (see _codon_set)
     for f in frames:
         d = _strand(s, f).replace('-', '')
         if not custom:
@@ -1073,8 +1073,13 @@ def _apply_edit(cur, st):
 
 
 def _cfg_case(s, cfg):
-    return _mk(s, rf=cfg.get('rf', 'fwd'), need_start=cfg.get('need_start', 'always'), need_stop=cfg.get('need_stop', True),
-               minlen=cfg.get('minlen', 0), rf_tuple=cfg.get('rf_tuple', False), gap=cfg.get('gap', '-'))
+    c = _mk(s, rf=cfg.get('rf', 'fwd'), need_start=cfg.get('need_start', 'always'), need_stop=cfg.get('need_stop', True),
+            minlen=cfg.get('minlen', 0), rf_tuple=cfg.get('rf_tuple', False), gap=cfg.get('gap', '-'))
+    for k in ('start', 'stop'):                       # custom codon sets inside a history (round 7): evaluated through run_C12x
+        if k in cfg:
+            c[k] = cfg[k]
+            c['x'] = True
+    return c
 
 
 def _hist_plan(case):
@@ -1115,6 +1120,10 @@ def _gen_hist(rng):
         c = _rand_valid_cfg(rng)
         if gap != '-':
             c['gap'] = gap
+        if rng.random() < 0.2:                        # another codon set in one of the searches of the history
+            c[rng.choice(['start', 'stop'])] = rng.choice(['ATG|GTG|TTG', 'ATG', 'GTG']) if rng.random() < 0.5 else rng.choice(['TAA', 'TAA|TAG', 'TGA'])
+            if 'start' in c and c['start'] in ('TAA', 'TAA|TAG', 'TGA') or 'stop' in c and c['stop'] in ('ATG|GTG|TTG', 'ATG', 'GTG'):
+                pass                                  # a stop word as start pattern (or the reverse) is a legal custom set too
         return c
     cfg = _cfgg()
     steps.append({'op': 'find', 'cfg': cfg})
@@ -1362,7 +1371,7 @@ def python_snippet(case):
     return ("import sys; sys.path.insert(0, '/verif/tools'); from props import c12; "
             "print(c12._hist_impl(%r))" % (case,))
 
-LEVEL_TEXT = ('Machine-checked Coq theorems (36, all closed under the global context) about a line-by-line Gallina model of find_orfs, '
+LEVEL_TEXT = ('Machine-checked Coq theorems (38, all closed under the global context) about a line-by-line Gallina model of find_orfs, '
               '_frame_start, _inds2orf, the codon locator of match(), BioSeq/BioBasket.find_orfs and the len_* filters. Every clause of the '
               'property text is a theorem about the model: '
               '(1) every mode, every sequence, rf, minlen, no hypothesis: the fuelled pairing loop terminates within |starts|+|stops|+1 '
@@ -1395,7 +1404,9 @@ LEVEL_TEXT = ('Machine-checked Coq theorems (36, all closed under the global con
               '(C12_gap_bijection_any_gap). CUSTOM codon sets (start=/stop= alternations of literal words, any lengths): every mode equals '
               'its specification over the custom codon lists (C12_custom_modes_spec, C12_custom_codon_lists), all intervals lie inside the '
               'sequence, respect minlen and identify a requested frame (C12_custom_invariants), the default pairing lists exactly the '
-              '(a, e) with is_orf_x, once, in order (C12_custom_is_orf). The default-settings clause against the declarative predicate '
+              '(a, e) with is_orf_x, once, in order (C12_custom_is_orf); on gap-free input the custom codon lists are exactly the in-frame occurrences when the three-letter '
+              'words cannot overlap one another (C12_custom_codons_complete) and not otherwise (C12_custom_overlap_refuted: ATG|GTG|TTG, an '
+              'in-frame GTG hidden behind an out-of-frame ATG by the non-overlapping finditer). The default-settings clause against the declarative predicate '
               'is_orf(text, frame, a, e), both strands, any frame list: sound, complete, no duplicates, increasing order '
               '(C12_default_is_orf) with residue offset = frame and residue count divisible by three (C12_is_orf_residues). Every rf form: '
               'names, ints, tuples, one numpy integer / float / None (TypeError), another string (AssertionError), and tuples with REPEATED '
